@@ -226,6 +226,9 @@ func init() {
 					if !m.PubOnly {
 						pub2, _ := mk()
 						k, err = jwtrsassapkcs1.NewPrivateKey(jwtrsassapkcs1.PrivateKeyOpts{PublicKey: pub2, D: sb(pad(m.K.D, m.Pad)), P: sb(pad(m.K.P, m.Pad)), Q: sb(pad(m.K.Q, m.Pad))})
+						if err != nil && m.Optional {
+							continue
+						}
 						if err != nil {
 							return nil, err
 						}
@@ -285,6 +288,9 @@ func init() {
 					if !m.PubOnly {
 						pub2, _ := mk()
 						k, err = jwtrsassapss.NewPrivateKey(jwtrsassapss.PrivateKeyOpts{PublicKey: pub2, D: sb(pad(m.K.D, m.Pad)), P: sb(pad(m.K.P, m.Pad)), Q: sb(pad(m.K.Q, m.Pad))})
+						if err != nil && m.Optional {
+							continue
+						}
 						if err != nil {
 							return nil, err
 						}
